@@ -4,6 +4,10 @@
 //! subset cactusref uses.  Exceeding `CAP` is reported as a bound violation
 //! ("vmap capacity exceeded"), never as success.
 //!
+//! Like hashbrown's, the storage is heap allocated on first insertion: the table value itself stays
+//! small (the teardown code moves tables around with `mem::replace` and `Vec::push`), an empty table
+//! owns no memory, and a forgotten / doubly released table is visible to CBMC.
+//!
 //! Iteration order: slot order.  With `--cfg vmap_nondet` a new key goes to a
 //! nondeterministically chosen free slot, so that iteration order is
 //! universally quantified.
@@ -16,40 +20,50 @@ pub const CAP: usize = 4;
 #[cfg(vmap_cap6)]
 pub const CAP: usize = 6;
 
-/// Ghost observer: called from the stand-in's `Drop` with the map's tag.  The
-/// tables of a collected group are destroyed at the same program point as the
-/// members' values, so this hook sees exactly the call-out states.
-pub static mut DROP_OBSERVER: Option<fn(u8)> = None;
+/// Ghost observer of call-out states.  The tables of a collected group are destroyed at the same
+/// program point as the members' values (`drop(inners)`), so a check made from the stand-in's `Drop`
+/// sees exactly the states in which user destructors run.  To keep CBMC's model small the observer is
+/// not a function pointer: harnesses register up to two (strong, weak) counter cells and the values
+/// they must have at every call-out; `Drop` of a tagged table asserts them.
+pub static mut OBS_STRONG: [*const core::cell::Cell<usize>; 2] = [core::ptr::null(); 2];
+pub static mut OBS_WEAK: [*const core::cell::Cell<usize>; 2] = [core::ptr::null(); 2];
+pub static mut OBS_EXPECT_WEAK: [usize; 2] = [0; 2];
 /// Number of tagged (non-zero tag) tables destroyed so far.
 pub static mut TAGGED_DROPS: usize = 0;
+/// tables constructed minus tables destroyed (a forgotten table keeps this positive)
+pub static mut LIVE_TABLES: isize = 0;
+
+type Slots<K, V> = [Option<(K, V)>; CAP];
 
 pub struct HashMap<K, V> {
-    slots: [Option<(K, V)>; CAP],
+    store: Option<Box<Slots<K, V>>>,
     /// ghost tag set by harnesses (0 = untagged)
     pub tag: u8,
-    /// heap marker: a forgotten table is a CBMC memory leak, a table released
-    /// twice a double free.
-    marker: Option<Box<u8>>,
 }
 
 impl<K, V> Default for HashMap<K, V> {
     #[inline]
     fn default() -> Self {
-        Self {
-            slots: [const { None }; CAP],
-            tag: 0,
-            marker: Some(Box::new(0)),
+        unsafe {
+            LIVE_TABLES += 1;
         }
+        Self { store: None, tag: 0 }
     }
 }
 
 impl<K, V> Drop for HashMap<K, V> {
     fn drop(&mut self) {
-        if self.tag != 0 {
-            unsafe {
+        unsafe {
+            LIVE_TABLES -= 1;
+            if self.tag != 0 {
                 TAGGED_DROPS += 1;
-                if let Some(f) = DROP_OBSERVER {
-                    f(self.tag);
+                let mut i = 0;
+                while i < 2 {
+                    if !OBS_STRONG[i].is_null() {
+                        kani::assert((*OBS_STRONG[i]).get() == usize::MAX, "U6.callout.every_registered_member_already_gone");
+                        kani::assert((*OBS_WEAK[i]).get() == OBS_EXPECT_WEAK[i], "U6.callout.no_registered_member_released_yet");
+                    }
+                    i += 1;
                 }
             }
         }
@@ -62,34 +76,40 @@ impl<K: fmt::Debug, V: fmt::Debug> fmt::Debug for HashMap<K, V> {
     }
 }
 
-impl<K: PartialEq, V> HashMap<K, V> {
+impl<K, V> HashMap<K, V> {
     #[inline]
-    fn find(&self, k: &K) -> Option<usize> {
-        let mut i = 0;
-        while i < CAP {
-            if let Some((kk, _)) = &self.slots[i] {
-                if kk == k {
-                    return Some(i);
-                }
-            }
-            i += 1;
+    fn slots(&self) -> Option<&Slots<K, V>> {
+        match &self.store {
+            Some(b) => Some(&**b),
+            None => None,
         }
-        None
     }
 
     #[inline]
-    fn free_slot(&self) -> usize {
+    fn slots_mut(&mut self) -> &mut Slots<K, V> {
+        if self.store.is_none() {
+            self.store = Some(Box::new([const { None }; CAP]));
+        }
+        match &mut self.store {
+            Some(b) => &mut **b,
+            None => unreachable!(),
+        }
+    }
+
+    #[inline]
+    fn free_slot(&mut self) -> usize {
+        let slots = self.slots_mut();
         #[cfg(vmap_nondet)]
         {
             let i: usize = kani::any();
             kani::assume(i < CAP);
-            if self.slots[i].is_none() {
+            if slots[i].is_none() {
                 return i;
             }
         }
         let mut i = 0;
         while i < CAP {
-            if self.slots[i].is_none() {
+            if slots[i].is_none() {
                 return i;
             }
             i += 1;
@@ -99,79 +119,45 @@ impl<K: PartialEq, V> HashMap<K, V> {
         0
     }
 
-    pub fn get(&self, k: &K) -> Option<&V> {
-        match self.find(k) {
-            Some(i) => self.slots[i].as_ref().map(|kv| &kv.1),
-            None => None,
-        }
-    }
-
-    pub fn contains_key(&self, k: &K) -> bool {
-        self.find(k).is_some()
-    }
-
-    pub fn insert(&mut self, k: K, v: V) -> Option<V> {
-        match self.find(&k) {
-            Some(i) => {
-                let old = self.slots[i].take();
-                self.slots[i] = Some((k, v));
-                old.map(|kv| kv.1)
-            }
-            None => {
-                let i = self.free_slot();
-                self.slots[i] = Some((k, v));
-                None
-            }
-        }
-    }
-
-    pub fn remove(&mut self, k: &K) -> Option<V> {
-        match self.find(k) {
-            Some(i) => self.slots[i].take().map(|kv| kv.1),
-            None => None,
-        }
-    }
-
-    pub fn entry(&mut self, key: K) -> Entry<'_, K, V> {
-        let idx = self.find(&key);
-        Entry { map: self, key, idx }
-    }
-}
-
-impl<K, V> HashMap<K, V> {
     pub fn clear(&mut self) {
-        let mut i = 0;
-        while i < CAP {
-            self.slots[i] = None;
-            i += 1;
+        if let Some(b) = &mut self.store {
+            let mut i = 0;
+            while i < CAP {
+                b[i] = None;
+                i += 1;
+            }
         }
     }
 
     pub fn len(&self) -> usize {
         let mut n = 0;
-        let mut i = 0;
-        while i < CAP {
-            if self.slots[i].is_some() {
-                n += 1;
+        if let Some(s) = self.slots() {
+            let mut i = 0;
+            while i < CAP {
+                if s[i].is_some() {
+                    n += 1;
+                }
+                i += 1;
             }
-            i += 1;
         }
         n
     }
 
     pub fn is_empty(&self) -> bool {
-        let mut i = 0;
-        while i < CAP {
-            if self.slots[i].is_some() {
-                return false;
+        if let Some(s) = self.slots() {
+            let mut i = 0;
+            while i < CAP {
+                if s[i].is_some() {
+                    return false;
+                }
+                i += 1;
             }
-            i += 1;
         }
         true
     }
 
     pub fn iter(&self) -> Iter<'_, K, V> {
-        Iter { map: self, pos: 0 }
+        Iter { slots: self.slots(), pos: 0 }
     }
 
     pub fn extract_if<F>(&mut self, f: F) -> ExtractIf<'_, K, V, F>
@@ -183,7 +169,69 @@ impl<K, V> HashMap<K, V> {
 
     /// verification-only: the raw slot, for whole-view postconditions
     pub fn slot(&self, i: usize) -> Option<&(K, V)> {
-        self.slots[i].as_ref()
+        match self.slots() {
+            Some(s) => s[i].as_ref(),
+            None => None,
+        }
+    }
+}
+
+impl<K: PartialEq, V> HashMap<K, V> {
+    #[inline]
+    fn find(&self, k: &K) -> Option<usize> {
+        let slots = match self.slots() {
+            Some(s) => s,
+            None => return None,
+        };
+        let mut i = 0;
+        while i < CAP {
+            if let Some((kk, _)) = &slots[i] {
+                if kk == k {
+                    return Some(i);
+                }
+            }
+            i += 1;
+        }
+        None
+    }
+
+    pub fn get(&self, k: &K) -> Option<&V> {
+        match (self.find(k), self.slots()) {
+            (Some(i), Some(s)) => s[i].as_ref().map(|kv| &kv.1),
+            _ => None,
+        }
+    }
+
+    pub fn contains_key(&self, k: &K) -> bool {
+        self.find(k).is_some()
+    }
+
+    pub fn insert(&mut self, k: K, v: V) -> Option<V> {
+        match self.find(&k) {
+            Some(i) => {
+                let slots = self.slots_mut();
+                let old = slots[i].take();
+                slots[i] = Some((k, v));
+                old.map(|kv| kv.1)
+            }
+            None => {
+                let i = self.free_slot();
+                self.slots_mut()[i] = Some((k, v));
+                None
+            }
+        }
+    }
+
+    pub fn remove(&mut self, k: &K) -> Option<V> {
+        match self.find(k) {
+            Some(i) => self.slots_mut()[i].take().map(|kv| kv.1),
+            None => None,
+        }
+    }
+
+    pub fn entry(&mut self, key: K) -> Entry<'_, K, V> {
+        let idx = self.find(&key);
+        Entry { map: self, key, idx }
     }
 }
 
@@ -199,11 +247,11 @@ impl<'a, K: PartialEq, V> Entry<'a, K, V> {
             Some(i) => i,
             None => {
                 let i = self.map.free_slot();
-                self.map.slots[i] = Some((self.key, default));
+                self.map.slots_mut()[i] = Some((self.key, default));
                 i
             }
         };
-        match &mut self.map.slots[i] {
+        match &mut self.map.slots_mut()[i] {
             Some(kv) => &mut kv.1,
             None => unreachable!(),
         }
@@ -211,7 +259,7 @@ impl<'a, K: PartialEq, V> Entry<'a, K, V> {
 
     pub fn and_modify<F: FnOnce(&mut V)>(self, f: F) -> Self {
         if let Some(i) = self.idx {
-            if let Some(kv) = &mut self.map.slots[i] {
+            if let Some(kv) = &mut self.map.slots_mut()[i] {
                 f(&mut kv.1);
             }
         }
@@ -227,17 +275,21 @@ impl<'a, K: PartialEq, V> Entry<'a, K, V> {
 }
 
 pub struct Iter<'a, K, V> {
-    map: &'a HashMap<K, V>,
+    slots: Option<&'a Slots<K, V>>,
     pos: usize,
 }
 
 impl<'a, K, V> Iterator for Iter<'a, K, V> {
     type Item = (&'a K, &'a V);
     fn next(&mut self) -> Option<Self::Item> {
+        let slots = match self.slots {
+            Some(s) => s,
+            None => return None,
+        };
         while self.pos < CAP {
             let i = self.pos;
             self.pos += 1;
-            if let Some(kv) = &self.map.slots[i] {
+            if let Some(kv) = &slots[i] {
                 return Some((&kv.0, &kv.1));
             }
         }
@@ -261,10 +313,14 @@ pub struct IntoIter<K, V> {
 impl<K, V> Iterator for IntoIter<K, V> {
     type Item = (K, V);
     fn next(&mut self) -> Option<(K, V)> {
+        let slots = match &mut self.map.store {
+            Some(b) => &mut **b,
+            None => return None,
+        };
         while self.pos < CAP {
             let i = self.pos;
             self.pos += 1;
-            if let Some(kv) = self.map.slots[i].take() {
+            if let Some(kv) = slots[i].take() {
                 return Some(kv);
             }
         }
@@ -295,15 +351,19 @@ where
 {
     type Item = (K, V);
     fn next(&mut self) -> Option<(K, V)> {
+        let slots = match &mut self.map.store {
+            Some(b) => &mut **b,
+            None => return None,
+        };
         while self.pos < CAP {
             let i = self.pos;
             self.pos += 1;
-            let hit = match &mut self.map.slots[i] {
+            let hit = match &mut slots[i] {
                 Some(kv) => (self.f)(&kv.0, &mut kv.1),
                 None => false,
             };
             if hit {
-                return self.map.slots[i].take();
+                return slots[i].take();
             }
         }
         None
@@ -311,25 +371,27 @@ where
 }
 
 pub struct HashSet<T> {
-    slots: [Option<T>; CAP],
+    store: Option<Box<[Option<T>; CAP]>>,
 }
 
 impl<T> Default for HashSet<T> {
     fn default() -> Self {
-        Self { slots: [const { None }; CAP] }
+        Self { store: None }
     }
 }
 
 impl<T: PartialEq> HashSet<T> {
     pub fn contains(&self, t: &T) -> bool {
-        let mut i = 0;
-        while i < CAP {
-            if let Some(x) = &self.slots[i] {
-                if x == t {
-                    return true;
+        if let Some(b) = &self.store {
+            let mut i = 0;
+            while i < CAP {
+                if let Some(x) = &b[i] {
+                    if x == t {
+                        return true;
+                    }
                 }
+                i += 1;
             }
-            i += 1;
         }
         false
     }
@@ -338,13 +400,18 @@ impl<T: PartialEq> HashSet<T> {
         if self.contains(&t) {
             return false;
         }
-        let mut i = 0;
-        while i < CAP {
-            if self.slots[i].is_none() {
-                self.slots[i] = Some(t);
-                return true;
+        if self.store.is_none() {
+            self.store = Some(Box::new([const { None }; CAP]));
+        }
+        if let Some(b) = &mut self.store {
+            let mut i = 0;
+            while i < CAP {
+                if b[i].is_none() {
+                    b[i] = Some(t);
+                    return true;
+                }
+                i += 1;
             }
-            i += 1;
         }
         kani::assert(false, "vmap capacity exceeded");
         kani::assume(false);
